@@ -133,6 +133,52 @@ BY3_EXCEPTIONS = {
 }
 
 
+def const_equals_count(b, fl, tainted, point, op):
+    """`return Ok(k)` for a constant k is the count itself when the exit is dominated by the edge on which a
+    count-tainted value was found equal to k (e.g. `if total == 0 { return Ok(0) }`)."""
+    k = op_const_bits(op)
+    if k is None:
+        ol = op_local(op)
+        if ol is not None:
+            for o in b.trace_local(ol):
+                if o[0] == 'const' and op_const_bits(o[2]) is not None:
+                    k = op_const_bits(o[2])
+    if k is None:
+        return False
+    for bj, blk in enumerate(b.blocks):
+        if not b.live[bj] or blk['term']['k'] != 'switch':
+            continue
+        c = b.switch_cond(bj)
+        if not (c and c['kind'] == 'bool'):
+            continue
+        for o in c['origin']:
+            if not (o[0] == 'rv' and o[2]['k'] == 'binop' and o[2]['op'] in ('Eq', 'Ne', 'Lt', 'Le', 'Gt', 'Ge')):
+                continue
+            a_, b_ = o[2]['a'], o[2]['b']
+            op_ = o[2]['op']
+            if fl.op_tainted(b_, tainted) and op_const_bits(a_) is not None:
+                a_, b_ = b_, a_
+                op_ = {'Lt': 'Gt', 'Gt': 'Lt', 'Le': 'Ge', 'Ge': 'Le'}.get(op_, op_)
+            kk = op_const_bits(b_)
+            if kk is None or not fl.op_tainted(a_, tainted):
+                continue
+            e = b.bool_edges(bj)
+            if not e:
+                continue
+            eq_edge = None
+            if (op_, kk) == ('Eq', k):
+                eq_edge = e[0]
+            elif (op_, kk) == ('Ne', k):
+                eq_edge = e[1]
+            elif k == 0 and (op_, kk) in (('Le', 0), ('Lt', 1)):
+                eq_edge = e[0]
+            elif k == 0 and (op_, kk) in (('Gt', 0), ('Ge', 1)):
+                eq_edge = e[1]
+            if eq_edge is not None and b.edge_dominates(eq_edge, point):
+                return True
+    return False
+
+
 @rule('BY3', ['C15'], floor=8, template='must-flow')
 def by3(ctx):
     """API and helpers: every entry / GC byte count reaches wal_bytes_written of the outcome."""
@@ -157,10 +203,10 @@ def by3(ctx):
             for e in exits:
                 if b.id in api_ids:
                     fo, agg = outcome_field_op(b, e)
-                    if fo is None or not fl.op_tainted(fo, t):
+                    if fo is None or not (fl.op_tainted(fo, t) or const_equals_count(b, fl, t, e['point'], fo)):
                         ok = False
                 else:
-                    if not (e['ops'] and fl.op_tainted(e['ops'][0], t)):
+                    if not (e['ops'] and (fl.op_tainted(e['ops'][0], t) or const_equals_count(b, fl, t, e['point'], e['ops'][0]))):
                         ok = False
             ctx.check(ok, key, where(b, c.point), 'byte count reaches %s' % ('outcome.wal_bytes_written' if b.id in api_ids else 'the helper\'s return value'),
                       'bytes written to the WAL by this call (%s) are not reported: they do not flow into %s' % (c.path.split('::')[-1], 'wal_bytes_written' if b.id in api_ids else 'the returned count'))
@@ -385,6 +431,77 @@ def qx2(ctx):
 
 def b_reaches_only_via(b, g, point):
     return False
+
+
+LOOKUP_RE = r'HashMap::<.*>::(get|get_mut|remove|remove_entry|get_key_value)(::<.*>)?$|BTreeMap::<.*>::(get|get_mut|remove)(::<.*>)?$'
+
+
+def presence_edges(b):
+    """Edges of body b on which a keyed map lookup is known to have found ('present') or not found ('absent') the key."""
+    out = []
+    def from_lookup(l):
+        return l is not None and any(o[0] == 'call' and re.search(LOOKUP_RE, o[1].name) for o in b.trace_local(l))
+    for (bi, c, te, fe, cs) in b.switches_on_call(lambda c: True):
+        if re.search(r'(HashMap|BTreeMap)::<.*>::contains_key(::<.*>)?$', cs.name):
+            out += [(te, 'present'), (fe, 'absent')]
+        elif re.search(r'Option::<.*>::is_none$', cs.name) and _opt_from_lookup(b, cs.arg_local(0), from_lookup):
+            out += [(te, 'absent'), (fe, 'present')]
+        elif re.search(r'Option::<.*>::is_some$', cs.name) and _opt_from_lookup(b, cs.arg_local(0), from_lookup):
+            out += [(te, 'present'), (fe, 'absent')]
+    for (bj, pl, adt, edges) in b.discr_switches():
+        if adt and adt.endswith('Option') and 'Some' in edges and 'None' in edges and from_lookup(pl['l']):
+            out += [(edges['Some'], 'present'), (edges['None'], 'absent')]
+        if adt and adt.endswith('Entry') and 'Occupied' in edges and 'Vacant' in edges:
+            out += [(edges['Occupied'], 'present'), (edges['Vacant'], 'absent')]
+    return out
+
+
+def _opt_from_lookup(b, l, from_lookup):
+    """l is `&Option<_>`: follow the borrow to the option local and test its origin"""
+    if l is None:
+        return False
+    if from_lookup(l):
+        return True
+    for o in b.trace_local(l):
+        if o[0] == 'rv' and o[2]['k'] == 'ref' and from_lookup(o[2]['place']['l']):
+            return True
+    return False
+
+
+@rule('QX4', ['C13'], floor=3, template='guard-polarity')
+def qx4(ctx):
+    """The queue map rejects with the right polarity: AlreadyExists is only built where a lookup FOUND the
+    queue, MissingQueue only where a lookup did NOT find it (the API gates before the WAL write rely on the
+    map functions after the write agreeing with them)."""
+    n = 0
+    want = {'error::AlreadyExists': 'present', 'error::MissingQueue': 'absent'}
+    for b in ctx.f.bodies.values():
+        if b.generic_dup() or b.is_test or b.is_closure or not b.path.startswith('mem::queues::MemQueues::'):
+            continue
+        et = err_type_of(b.ret_ty)
+        if et not in want:
+            continue
+        pe = None
+        for e in b.exits():
+            if e['kind'] == 'err' and e.get('adt') == et:
+                if pe is None:
+                    pe = presence_edges(b)
+                n += 1
+                good = [k for (edge, k) in pe if b.edge_dominates(edge, e['point'])]
+                ctx.check(want[et] in good and not (set(good) - {want[et]}), '%s:%s' % (b.path, et.split('::')[-1]), where(b, e['point']),
+                          '%s is returned on the %s edge of the lookup' % (et.split('::')[-1], want[et]),
+                          '%s is returned %s: a call that passed the API gate is rejected AFTER its WAL entry was written (and a call that should be rejected is applied)' % (
+                              et.split('::')[-1], ('on the edge where the lookup says the queue is %s' % ('missing' if want[et] == 'present' else 'there')) if good else 'without a dominating lookup of the queue'))
+            elif e['kind'] == 'forward':
+                c = e.get('call')
+                if c is not None and hasattr(c, 'name') and re.search(r'Option::<.*>::ok_or(_else)?(::<.*>)?$', c.name):
+                    n += 1
+                    src = c.arg_local(0)
+                    okl = src is not None and any(o[0] == 'call' and re.search(LOOKUP_RE, o[1].name) for o in b.trace_local(src))
+                    ctx.check(okl and want[et] == 'absent', '%s:%s:ok_or' % (b.path, et.split('::')[-1]), where(b, e['point']), 'lookup result converted with ok_or: the error is built exactly when the key is absent',
+                              '%s is built by ok_or(_else) from something that is not a lookup of the queue map (or with the wrong polarity)' % et.split('::')[-1])
+    if n < 3:
+        ctx.missing('map-rejections', 'expected the rejecting exits of MemQueues (create, delete, get_queue*), found %d' % n)
 
 
 @rule('QX3', ['C13'], floor=7, template='instance-floor')
